@@ -176,7 +176,7 @@ func (x *Exec) baseEnv(st *State, fr *Frame) *Env {
 	vars := map[string]Val{}
 	for _, p := range fr.fn.Params {
 		if v, ok := fr.regs[p]; ok {
-			vars[p.Name()] = v
+			vars[p.Name()+"0"] = v
 		}
 	}
 	for i, fv := range fr.fn.FreeVars {
@@ -203,6 +203,13 @@ func (x *Exec) lookupLocal(st *State, fr *Frame, name string) (Val, bool) {
 		}
 		return Val{}, false
 	}
+	// a parameter that is never re-assigned denotes its entry value; a re-assigned one denotes its latest phi
+	var param *ssa.Parameter
+	for _, p := range fr.fn.Params {
+		if p.Name() == name {
+			param = p
+		}
+	}
 	// phis (loop-carried or merged variables) and allocs carry the variable name in Comment
 	var best ssa.Value
 	var bestVal Val
@@ -222,6 +229,11 @@ func (x *Exec) lookupLocal(st *State, fr *Frame, name string) (Val, bool) {
 	for v, val := range fr.regs {
 		if al, ok := v.(*ssa.Alloc); ok && al.Comment == name {
 			return x.loadPure(st, x.addrOf(val)), true
+		}
+	}
+	if param != nil {
+		if v, ok := fr.regs[param]; ok {
+			return v, true
 		}
 	}
 	// named results / other values via debug refs
@@ -546,6 +558,14 @@ func (x *Exec) finish(st *State, fr *Frame, results []Val) {
 	}
 	pos := x.curPos
 	env := x.baseEnv(st, fr).with(x.resultVars(fr.fn.Signature, results))
+	// in postconditions a parameter name denotes its entry value
+	pv := map[string]Val{}
+	for _, p := range fr.fn.Params {
+		if v, ok := fr.regs[p]; ok {
+			pv[p.Name()] = v
+		}
+	}
+	env = env.with(pv)
 	for _, u := range x.con.Uses {
 		x.applyLemma(st, env, u)
 	}
@@ -569,6 +589,9 @@ func (x *Exec) finish(st *State, fr *Frame, results []Val) {
 			}
 		}
 		x.oblige(st, "writesvia", fmt.Sprint(i+1), pos, goal, nil)
+	}
+	if x.con.NoAlloc {
+		x.oblige(st, "frame", "noalloc", pos, eq(st.alloc, "alloc!0"), nil)
 	}
 	// frame
 	if x.con.HasMod || x.con.Pure {
